@@ -242,17 +242,25 @@ def programs(tier):
         out.append(('Powell', ('Step', 'Step', 'Step', 'SetGenMon', 'Finalize')))
         out.append(('Powell', ('Step', 'Step', 'Finalize', 'Step', 'Finalize')))
     else:
+        cost = {'Step': 1, 'Solve1': 2, 'Solve0': 1}
+        extra = programs('quick')
         for kind in ('NM', 'Powell', 'DE', 'DE2'):
-            L_ = 4 if kind == 'NM' else 3
-            for n in range(1, L_ + 1):
+            de = kind.startswith('DE')
+            Lmax = 2 if de else 3
+            for n in range(1, Lmax + 1):
                 for p in itertools.product(OPS, repeat=n):
-                    if p.count('Step') + p.count('Solve1') == 0 or p.count('Step') + 2 * p.count('Solve1') > 3:
+                    steps = sum(cost.get(o, 0) for o in p)
+                    if steps == 0 or steps > (2 if de else 3):
                         continue
-                    if kind != 'NM' and n == 3 and p[0] not in ('Step', 'Solve1'):
+                    if de and 'SetStrictRanges' in p and steps > 1:
                         continue
                     out.append((kind, p))
-                    if n <= 3 and 'SetEvalMon' in p:
+                    if n <= 2 and 'SetEvalMon' in p and not de:
                         out.append((kind, ('nomon',) + p + ('Finalize', 'Step')))
+        seen = set(out)
+        for kp in extra:
+            if kp not in seen:
+                out.append(kp)
     return out
 
 
